@@ -27,6 +27,7 @@ type Harness struct {
 	Asserts  []string // assert labels that must be evaluated at least once
 	Note     string
 	Solver   string // primary solver for this harness ("" = default)
+	Sched    bool   // the harness explores goroutine schedules: a counterexample that the (unsteerable) native scheduler does not reproduce is still reported
 }
 
 // Check is the machinery for one property.
@@ -261,6 +262,11 @@ func (r *Runner) Run() int {
 			if isKnown {
 				continue
 			}
+			if status == "not-reproduced" && h.Sched {
+				// the violation depends on a goroutine schedule chosen by the solver; the native
+				// runtime scheduler cannot be steered, so the executor's schedule trace is the evidence
+				status = "schedule-only"
+			}
 			if status == "not-reproduced" && strings.HasPrefix(v.Label, "monitor:") {
 				// lock-discipline monitors observe which lock is held at each heap access on the
 				// path the executor followed through the real SSA; a single-threaded native run
@@ -268,7 +274,7 @@ func (r *Runner) Run() int {
 				status = "monitor-only"
 			}
 			switch status {
-			case "reproduced", "skipped", "monitor-only":
+			case "reproduced", "skipped", "monitor-only", "schedule-only":
 				fmt.Printf("VIOLATION property=%s replay=%s\n", c.ID, path)
 				fmt.Printf("  %s %s at %s (%d paths) inputs=%s replay=%s %s\n", res.Spec.Name, v.Label, v.Where, len(vs), compactJSON(v.Inputs), status, detail)
 				exit = 1
@@ -436,6 +442,12 @@ func (r *Runner) replay(h *Harness, sp *sym.HarnessSpec, v *sym.Violation, path 
 		}
 	}
 	crashed := strings.Contains(out, "\npanic: ") || strings.HasPrefix(out, "panic: ") || strings.Contains(out, "fatal error:")
+	if want == "deadlock" {
+		if strings.Contains(out, "test timed out") || strings.Contains(out, "all goroutines are asleep") {
+			return "reproduced", "native run hung: " + firstLineWith(out, "panic: ")
+		}
+		return "not-reproduced", strings.Join(outcomes, "; ") + tail(out, 200)
+	}
 	if strings.HasPrefix(want, "panic:") {
 		for _, o := range outcomes {
 			if strings.HasPrefix(o, "outcome=panic") {
@@ -567,7 +579,7 @@ func TestVerifReplay(t *testing.T) {
 	ob, _ := json.Marshal(map[string]interface{}{"Replace": repl})
 	of := filepath.Join(tmp, "overlay.json")
 	os.WriteFile(of, ob, 0o644)
-	cmd := exec.Command("timeout", "300", "go", "test", "-tags", "verif,verifreplay", "-vet=off", "-count=1", "-v", "-overlay", of, "-run", "^TestVerifReplay$", "./"+pkg)
+	cmd := exec.Command("timeout", "300", "go", "test", "-tags", "verif,verifreplay", "-vet=off", "-count=1", "-v", "-timeout", "30s", "-overlay", of, "-run", "^TestVerifReplay$", "./"+pkg)
 	cmd.Dir = repo
 	cmd.Env = append(os.Environ(), "GOFLAGS=-mod=mod", "GOPROXY=off", "GOSUMDB=off", "GOTOOLCHAIN=local", "VERIF_REPLAY="+vector)
 	out, err := cmd.CombinedOutput()
